@@ -209,7 +209,7 @@ func (q *querySpec) filterKind() string {
 }
 
 var tagRegexps = map[string][]string{
-	"host":   {"a|b", "^[a-c]$", "[d-f]", "^a$", "z", "a|e|f", "^[^a]$"},
+	"host":   {"a|b", "^[a-c]$", "[d-f]", "^a$", "z", "a|e|f", "^(a|b|f)$"},
 	"region": {"x", "^y$", "x|y", "q"},
 }
 var tagValues = map[string][]string{
